@@ -79,7 +79,10 @@ OpSetSilent(b) == Step("set_silent", <<b>>, b, r, b)                      \* lib
 \* works again.  S: the gates are the two levels and the silent flag - nothing else; so the outcome is the same.
 \* "in_atexit_of_fatal": the statement is executed by an atexit handler of the client while the exit() of an earlier fatal error
 \* is running the handlers.  S: a failed ASSERT is fatal, libast_fatal_error ends the process - "never by carrying on".
-Histories == {"clean", "after_failed_write", "in_atexit_of_fatal"}
+\* "after_refused_print": earlier calls of libast_dprintf / print_error / print_warning were REFUSED because no program name was
+\* registered at that moment (the state a failed strdup inside libast_set_program_name leaves); the name has been registered
+\* again since.  S: a refused call leaves nothing behind - the later statement behaves as if it had never happened.
+Histories == {"clean", "after_failed_write", "in_atexit_of_fatal", "after_refused_print"}
 \* Type of the asserted / required expression.  S: ASSERT(x) / REQUIRE(x) test the TRUTH of x exactly as C's !(x) does, whatever
 \* its scalar type: a double of magnitude below 1, a 64-bit value whose low 32 bits are 0, a pointer, a bit-field, a _Bool.
 \* The outcome is that of the same statement with an int condition of the same truth value.
@@ -98,15 +101,25 @@ InContext(o, c) ==
     ELSE [out |-> o.out, eval |-> IF c = "loop2" /\ o.ctl = "falls" THEN 2 * o.eval ELSE o.eval, ctl |-> o.ctl, els |-> FALSE]
 \* The length of the message is NOT a parameter of the rule: a live statement prints its message complete, whatever its length
 \* (checks/c20.py sweeps message lengths around 8..8192, BUFSIZ and beyond against these same outcomes).
-OpExecute(m, h, c, ty) ==
+\* Environment fault on the diagnostic stream: the k-th write the statement causes (k = 1, 2) fails with EINTR or EAGAIN before
+\* any byte went out, or is short (half of it accepted).  What the environment drops is lost - the stream class is not judged
+\* under a fault - but evaluations and control are the rule's, and what DOES come out is never garbled: every accepted piece is
+\* a piece of the fault-free output of the same statement (a message is formatted from its arguments once, or again from a COPY).
+WriteFaults == {"none", "w1_EINTR", "w1_EAGAIN", "w1_short", "w2_EINTR", "w2_EAGAIN", "w2_short"}
+UnderFault(o, wf) ==
+    IF wf = "none" THEN {[out |-> o.out, eval |-> o.eval, ctl |-> o.ctl, els |-> o.els, garbled |-> FALSE]}
+    ELSE {[out |-> "any", eval |-> o.eval, ctl |-> o.ctl, els |-> o.els, garbled |-> FALSE]}      \* "any": not judged
+OpExecute(m, h, c, ty, wf) ==
     /\ (c = "alone" \/ (h = "clean" /\ m \notin Printers))
     /\ (ty = "int" \/ (m \in Typed /\ c = "alone" /\ h = "clean"))
-    /\ \E o \in Outcomes(d, r, silent, m) : Step("execute", <<m, h, c, ty>>, InContext(o, c), r, silent)
+    /\ (wf = "none" \/ (c = "alone" /\ h = "clean" /\ ty = "int" /\ ~silent))
+    /\ \E o \in Outcomes(d, r, silent, m) : \E of \in UnderFault(InContext(o, c), wf) :
+          Step("execute", <<m, h, c, ty, wf>>, of, r, silent)
 
 Init == d \in CompileLevels /\ r = 0 /\ silent = FALSE                    \* a program starts at level 0, not silenced
 Next == \/ \E n \in RunLevels : OpSetLevel(n)
         \/ \E b \in BOOLEAN : OpSetSilent(b)
-        \/ \E m \in Macros, h \in Histories, c \in Contexts, ty \in CondTypes : OpExecute(m, h, c, ty)
+        \/ \E m \in Macros, h \in Histories, c \in Contexts, ty \in CondTypes, wf \in WriteFaults : OpExecute(m, h, c, ty, wf)
 Spec == Init /\ [][Next]_vars
 
 -------------------------------------------------------------------------------
